@@ -1,7 +1,15 @@
 (* Dispatch table of the extracted model executable: one command per modelled function. *)
 From FV Require Import Base.Prelude Model.ScriptBlocks Model.MathFuncs gen.MathTable.
+From FV Require Model.WordSubst.
 
 Definition dispatch (cmd : string) (arg : sexp) : sexp :=
   if String.eqb cmd "c15.gen" then ScriptBlocks.run_gen arg
   else if String.eqb cmd "c12.audit" then MathFuncs.audit math_env documented
+  else if String.eqb cmd "c11.resub" then WordSubst.run_resub arg
+  else if String.eqb cmd "c11.subst" then WordSubst.run_subst arg
+  else if String.eqb cmd "c11.seq" then WordSubst.run_seq arg
+  else if String.eqb cmd "c11.spec" then WordSubst.run_spec arg
+  else if String.eqb cmd "c11.tokens" then WordSubst.run_tokens arg
+  else if String.eqb cmd "c11.call" then WordSubst.run_call arg
+  else if String.eqb cmd "c11.finder" then WordSubst.run_finder arg
   else s_tag "unknown-command" [SAtom cmd].
